@@ -229,6 +229,9 @@ def await_ready_block(body, fut_local, max_hops=12):
     return None
 
 
+CONST_WITH_GA = False     # when True, unevaluated associated consts keep their generic arguments (T::Size::USIZE of which T?)
+
+
 def expr_of(body, op, depth=0, max_depth=30):
     """Symbolic expression tree of an operand by walking single-definition temporaries:
        ('const', int|str) | ('arg', n, proj...) | ('place', local, proj-names...) |
@@ -248,6 +251,8 @@ def expr_of(body, op, depth=0, max_depth=30):
             return ("fn", k["fn"])
         if "static" in k:
             return ("static", k["static"])
+        if CONST_WITH_GA and k.get("def") and k.get("dga"):
+            return ("const", k["def"] + "<" + ", ".join(map(str, k["dga"])) + ">")
         return ("const", k.get("def", k.get("s", k.get("ty"))))
     p = F.op_place(op) if isinstance(op, dict) else op
     if p is None:
@@ -479,7 +484,7 @@ def edge_guards(b):
         if e[0] == "bin" and e[1] in NEG:
             out.append((nz, (e[1], strip_casts(e[2]), strip_casts(e[3]))))
             out.append((z, (NEG[e[1]], strip_casts(e[2]), strip_casts(e[3]))))
-        elif e[0] == "call":
+        elif e[0] in ("call", "proj", "arg", "place", "upvar"):
             out.append((nz, ("true", e, None)))
             out.append((z, ("false", e, None)))
     return out
